@@ -11,8 +11,6 @@ package main
 //@ macro iserr(r) = jstype(r) == 4 && hasprefix(jsstring(r), "error:")
 //@ macro isstr(r, s) = jstype(r) == 4 && jsstring(r) == s
 //@ macro isbool(r, b) = jstype(r) == 2 && (jsbool(r) <==> b)
-//@ macro digitsof(s) = s == "6" ? 6 : (s == "8" ? 8 : (s == "9" ? 9 : (s == "10" ? 10 : 6)))
-//@ macro algoof(s) = s == "SHA1" ? 0 : (s == "SHA256" ? 1 : (s == "SHA512" ? 2 : 0))
 
 //@ func main.parseStringArg(arg, name) (s, err)
 //@   ensures[iff] err == nil <==> sarg(arg)
